@@ -92,6 +92,19 @@ def loaded_times_cases():
                                     leg=leg, dt=dt_, reported_dt=float(np.asarray(s_.dynamics.dt)[0]), last_time=float(t_[-1]), last_frame_time=float(ftimes[-1])))
                     break
             sol.delete_hdf5()
+        # a solution kept in memory (no output file), saved by the user and read back: the per-step records and times are those of the run
+        for k_, adaptive_ in ((5, True), (100, False)):
+            o = tdgl.SolverOptions(solve_time=0.4, save_every=k_, adaptive=adaptive_, dt_init=1e-2, output_file=None)
+            sol = tdgl.solve(dev, o, applied_vector_potential=0.2)
+            dt0, t0 = np.asarray(sol.dynamics.dt).copy(), np.asarray(sol.dynamics.time).copy()
+            p2 = os.path.join(td, f"mem{k_}.h5")
+            sol.to_hdf5(p2)
+            back = tdgl.Solution.from_hdf5(p2)
+            n += 1
+            d1 = np.asarray(back.dynamics.dt)
+            if len(d1) != len(dt0) or not np.array_equal(d1, dt0) or not np.allclose(np.asarray(back.dynamics.time), t0, rtol=1e-13, atol=0):
+                bad.append(dict(what="a solution held in memory, saved with to_hdf5 and read back reports other per-step records than the run produced",
+                                save_every=k_, adaptive=adaptive_, records_of_the_run=len(dt0), records_read_back=len(d1)))
     logging.disable(logging.NOTSET)
     return bad, n
 
@@ -129,6 +142,11 @@ def replay(unit, obl):
         import tdgl
         from checks import writer_common
         bad, n = writer_common.native(0)
+        if bad:
+            return dict(confirmed=True, failing_input=bad[0], n_failing=len(bad), evaluations=n, tdgl_file=tdgl.__file__)
+    if unit.startswith(("DynamicsData.from_hdf5", "Solution.", "save_time_step ->")):
+        import tdgl
+        bad, n = loaded_times_cases()
         if bad:
             return dict(confirmed=True, failing_input=bad[0], n_failing=len(bad), evaluations=n, tdgl_file=tdgl.__file__)
     from checks import runner_native
